@@ -2310,7 +2310,14 @@ vbi_decode_teletext(vbi_decoder *vbi, uint8_t *buffer)
 			}
 
 			vtp->function = PAGE_FUNCTION_DISCARD;
-			break;
+
+			if (curr == rvtp)
+				break;
+
+			/* Serial mode: a page of another magazine has been
+			   completed. The page still open in the magazine of
+			   this header ends here as well. */
+			vbi->vt.current = rvtp;
 		}
 
 		/*
